@@ -634,6 +634,7 @@ package quickfix
 //@   requires @bound session.store.#T < MaxInt64
 //@   requires @msg msgok(msg)
 //@   requires @admin isadminmsg(msg)
+//@   atcall verify @insequence msgok(msg)
 //@   atcall sendInReplyTo @type fhas(arg1.Header.FieldMap, 35) && onebyte(fval(arg1.Header.FieldMap, 35), 48)
 //@   atcall sendInReplyTo @echo fhas(arg1.Body.FieldMap, 112) && fhas(msg.Body.FieldMap, 112) && string(fval(arg1.Body.FieldMap, 112)) == string(fval(msg.Body.FieldMap, 112))
 //@   ensures @next result != nil && stok(result)
